@@ -230,7 +230,11 @@ func checkC08(p *Program, r *Result) {
 		enc, dec, sp := lf.enc[k.Spec], lf.dec[k.Spec], lf.spec[k.Spec]
 		if enc != nil {
 			if d := layoutDiff(enc.toks, sp.Toks, nil, false); d != "" {
-				r.violated("C08.d", "mcap.Writer.WriteStatistics", "layout of Statistics", p.pos(enc.pos), d)
+				if why := lf.g.encoderBlind(findFuncDecl(lf.g, k.Encoder)); why != "" {
+					r.abstain("C08.d", "mcap.Writer.WriteStatistics", "layout of Statistics", p.pos(enc.pos), "the encoder moves its bytes through a form the layout extractor does not model ("+why+")")
+				} else {
+					r.violated("C08.d", "mcap.Writer.WriteStatistics", "layout of Statistics", p.pos(enc.pos), d)
+				}
 			} else {
 				r.held("C08.d", "mcap.Writer.WriteStatistics", "layout of Statistics", p.pos(enc.pos), layoutString(enc.toks))
 			}
@@ -242,7 +246,13 @@ func checkC08(p *Program, r *Result) {
 		}
 		if dec != nil {
 			if d := layoutDiff(dec.toks, sp.Toks, nil, false); d != "" {
-				r.violated("C08.d", "mcap.ParseStatistics", "layout of Statistics", p.pos(dec.pos), d)
+				if hasUnnamed(dec.toks) && layoutDiff(blankNames(dec.toks), blankNames(sp.Toks), nil, false) == "" {
+					r.abstain("C08.d", "mcap.ParseStatistics", "layout of Statistics", p.pos(dec.pos), "widths and order equal the table; which result field each value reaches could not be traced")
+				} else if why := lf.g.decoderBlind(findFuncDecl(lf.g, k.Decoder)); why != "" {
+					r.abstain("C08.d", "mcap.ParseStatistics", "layout of Statistics", p.pos(dec.pos), "the decoder reads the record through a form the layout extractor does not model ("+why+")")
+				} else {
+					r.violated("C08.d", "mcap.ParseStatistics", "layout of Statistics", p.pos(dec.pos), d)
+				}
 			} else {
 				r.held("C08.d", "mcap.ParseStatistics", "layout of Statistics", p.pos(dec.pos), layoutString(dec.toks))
 			}
